@@ -26,6 +26,7 @@ THEOREMS = ['C08_volume_str_counts', 'C08_write_wf', 'C08_prune_preserves_wf',
             'C08_convert_wf_linked', 'C08_convert_wf_surfaces_linked',
             'C08_table_keys_linked', 'C08_matching_numbers_linked',
             'C08_insert_helpers_ok', 'C08_convert_wf_full_linked',
+            'C08_norm_fixed_linked', 'C08_convert_wf_all_linked',
             'C08_numbers_given', 'C08_numbers_finite', 'C08_words_okb_sound',
             'C08_remove_empty_volumes_ok', 'C08_geomcomp_partition',
             'C08_bc_defined',
@@ -40,14 +41,26 @@ TRUSTED = [
     'field is checked on the written bytes by harness/c08_validate.py only',
     'SurfaceT4.__eq__/__hash__ are modelled as numeric equality of (type, '
     'parameters, transform) at binary64 (NaN never equal)',
-    'construct_volume_t4 (cell conversion) is outside the model: its output '
-    'tables are the model input (C01/C05 model it); constructCompositionT4 is '
-    'modelled for names/grouping/counts only (numbers are C10\'s)',
+    'construct_volume_t4: the helper-plane insertion is modelled and tied; the '
+    'conversion loop is C01\'s model, number_items is C02\'s, normalize_float is '
+    'C09\'s - LINKED inside Coq (C08_convert_wf_all_linked), each with its own '
+    'tie in its property; TRCL / complement / lattice / FILL / inlining '
+    'processing before the loop is outside (C04-C07, C13); '
+    'constructCompositionT4 is modelled for names/grouping/counts only '
+    '(numbers are C10\'s)',
     'harness: generators, c08_validate reader, impl.T4File, snapshot wrapper '
     'around construct_volume_t4, PEG shim replacing TatSu',
 ]
 ASSUMPTIONS = [
     'material tokens are decimal digits, M-card numbers are positive',
+    'remaining hypotheses of C08_convert_wf_all_linked (stage0_rest4), each '
+    'evaluated on every snapshot (tie:stage0, tie:text, tie:density): the '
+    'volume table is not empty; skipped cells are numbers below the counter '
+    'outside the conversion list; every non-virtual volume comes from a cell '
+    'whose material has a card and a live cell (false for the open findings '
+    'material_without_card / negative_importance_no_composition); the strings '
+    'of the tables are words and the numeric strings finite numbers (false for '
+    'nonfinite_surface_parameter / fortran_spelled_fraction_copied)',
     'a run that raises before the output file is opened, or that dies with '
     'every cell empty (no volume survives), counts as a deck the converter '
     'does not accept',
@@ -248,6 +261,22 @@ m5 1001 -1.5d-1 8016 -8.5-1
 m1 1001 1.0
 m2 8016 1 1001 2
 ''', []),
+    'tori_flipped_by_half_turns': ('''tori whose axis ends up anti-parallel to a coordinate axis (seeded change C08_B)
+1 1 -1.0 -1 imp:n=1
+2 1 -1.0 -2 imp:n=1
+3 1 -1.0 -3 imp:n=1
+4 0 1 2 3 -4 imp:n=1
+5 0 4 imp:n=0
+
+1 1 tz 0 0 8 3 1 1
+2 2 ty 8 0 0 3 1 1
+3 2 tx 0 -8 0 3 1 1
+4 so 30
+
+tr1 0 0 0 1 0 0 0 -1 0 0 0 -1
+tr2 0 0 0 -1 0 0 0 -1 0 0 0 1
+m1 1001 1.0
+''', []),
     'bc_on_merged_duplicate': ('''flag carried by a surface merged into its duplicate
 1 1 -1.0 -1 2 imp:n=1
 2 0 1 : -3 imp:n=0
@@ -443,7 +472,7 @@ def _run(res, tier, seed, proofs_ok, cov):
                             'file_bytes': len(conv.text)})
     bad, errs = run_multi('c08_tie', ['check_file', 'check_verdict',
                                       'outside_guard', 'stage0_ok', 'check_reader',
-                           'text_ok', 'check_helpers'],
+                           'text_ok', 'check_helpers', 'check_density'],
                           cases)
     n_in = len(bad['outside_guard']) if not errs else 0   # indices where outside_guard = false
     res.extra['guard'] = {'cases': len(cases),
@@ -508,6 +537,20 @@ def _run(res, tier, seed, proofs_ok, cov):
                       f'{" ".join(args) or "default"}]',
                       {'input': {'deck': deck_text, 'args': args},
                        'theorem_or_correspondence': 'tie:helpers'},
+                      found_input=False)
+    res.obligation(f'tie:density ({len(cases)} snapshots: C09\'s normalize_float maps '
+                   'every stored density to itself and to the spelling the writers '
+                   'use - hypothesis density_from_c09 of C08_convert_wf_all_linked)',
+                   not bad['check_density'] and not errs,
+                   f'{len(bad["check_density"])} snapshots differ')
+    for idx in bad['check_density'][:5]:
+        deck_text, args, exc, verdict, _open = meta[idx]
+        res.violation('correspondence',
+                      'a stored density is not a fixed point of C09\'s '
+                      'normalize_float model, or the model disagrees with the '
+                      f'implementation [options {" ".join(args) or "default"}]',
+                      {'input': {'deck': deck_text, 'args': args},
+                       'theorem_or_correspondence': 'tie:density'},
                       found_input=False)
     res.obligation(f'tie:reader ({len(cases)} runs: the Coq reader parse_t4 on the '
                    'bytes of the real file accepts exactly the files the '
